@@ -18,7 +18,7 @@ enum Handle {
 
 pub struct HandleSut {
     alloc: &'static Alloc,
-    names: Mutex<HashMap<String, (Handle, u64)>>,
+    names: Mutex<HashMap<String, (Arc<Handle>, u64)>>,
     pre: Mutex<Vec<(Value, Value)>>,
 }
 
@@ -46,11 +46,20 @@ pub fn make(kind: &str, scn: &Value) -> Option<Arc<dyn Sut>> {
 }
 
 impl HandleSut {
+    /// removes the handle from the table (for operations that consume it); the caller must be its only user
     fn take(&self, name: &str) -> Option<(Handle, u64)> {
-        self.names.lock().unwrap().remove(name)
+        let (h, v) = self.names.lock().unwrap().remove(name)?;
+        match Arc::try_unwrap(h) {
+            Ok(h) => Some((h, v)),
+            Err(_) => panic!("handle {name} is consumed while another thread is using it (scenario error)"),
+        }
+    }
+    /// borrows the handle: several threads may use the same handle at once (it is `Sync`)
+    fn share(&self, name: &str) -> Option<(Arc<Handle>, u64)> {
+        self.names.lock().unwrap().get(name).map(|(h, v)| (Arc::clone(h), *v))
     }
     fn put(&self, name: &str, h: Handle, v: u64) {
-        self.names.lock().unwrap().insert(name.to_string(), (h, v));
+        self.names.lock().unwrap().insert(name.to_string(), (Arc::new(h), v));
     }
 
     fn run(&self, op: &Value) -> Value {
@@ -91,26 +100,26 @@ impl HandleSut {
             }
             "clone" => {
                 // the source handle stays where it is while it is being cloned (it is owned by the calling thread's script)
-                let (h, v) = self.take(&s("from")).expect("clone: no such handle");
-                let c = match &h {
+                let (h, v) = self.share(&s("from")).expect("clone: no such handle");
+                let c = match &*h {
                     Handle::Shared(a) => Handle::Shared(a.clone()),
                     Handle::Unique(_) => panic!("clone of a unique handle"),
                 };
-                self.put(&s("from"), h, v);
+                drop(h);
                 self.put(&s("to"), c, v);
                 json!({"ok": true, "v": v})
             }
             "incr" => {
-                let (h, v) = self.take(&s("from")).expect("incr: no such handle");
+                let (h, v) = self.share(&s("from")).expect("incr: no such handle");
                 let tos: Vec<String> = op["tos"].as_array().unwrap().iter().map(|x| x.as_str().unwrap().to_string()).collect();
                 let mut copies = vec![];
-                if let Handle::Shared(a) = &h {
+                if let Handle::Shared(a) = &*h {
                     unsafe { a.increment_references(tos.len() as u32) };
                     for _ in 0..tos.len() {
                         copies.push(unsafe { a.raw_copy() });
                     }
                 }
-                self.put(&s("from"), h, v);
+                drop(h);
                 for (t, c) in tos.iter().zip(copies) {
                     self.put(t, Handle::Shared(c), v);
                 }
@@ -122,21 +131,21 @@ impl HandleSut {
                 json!({"ok": true, "v": v, "destroyed": drops_of(v) >= 1, "dcount": drops_of(v)})
             }
             "deref" => {
-                let (h, v) = self.take(&s("h")).expect("deref: no such handle");
-                let got = match &h {
+                let (h, v) = self.share(&s("h")).expect("deref: no such handle");
+                let got = match &*h {
                     Handle::Shared(a) => Pay::v(&**a),
                     Handle::Unique(u) => Pay::v(&**u),
                 };
-                self.put(&s("h"), h, v);
+                drop(h);
                 json!({"ok": true, "v": got, "expected": v})
             }
             "refs" => {
-                let (h, v) = self.take(&s("h")).expect("refs: no such handle");
-                let n = match &h {
+                let (h, _v) = self.share(&s("h")).expect("refs: no such handle");
+                let n = match &*h {
                     Handle::Shared(a) => a.references_count(),
                     Handle::Unique(_) => 1,
                 };
-                self.put(&s("h"), h, v);
+                drop(h);
                 json!({"ok": true, "v": n})
             }
             "into_arc" => {
